@@ -22,6 +22,7 @@ import (
 	"log"
 	"net"
 	"net/netip"
+	"os"
 	"reflect"
 	"regexp"
 	"sort"
@@ -35,7 +36,17 @@ import (
 	"github.com/mdlayher/corerad/internal/verifh"
 	"github.com/mdlayher/metricslite"
 	"github.com/mdlayher/ndp"
+	"golang.org/x/net/ipv6"
 )
+
+// v12Conn swallows what is written to it.
+type v12Conn struct{}
+
+func (v12Conn) ReadFrom() (ndp.Message, *ipv6.ControlMessage, netip.Addr, error) {
+	return nil, nil, netip.Addr{}, os.ErrDeadlineExceeded
+}
+func (v12Conn) SetReadDeadline(time.Time) error                             { return nil }
+func (v12Conn) WriteTo(ndp.Message, *ipv6.ControlMessage, netip.Addr) error { return nil }
 
 // v12RawPlugin makes an arbitrary option list CoreRAD's "own" configuration.
 type v12RawPlugin struct{ opts []ndp.Option }
@@ -422,6 +433,20 @@ func v12ViaHandle(cfg config.Interface, theirs *ndp.RouterAdvertisement, times i
 	hooks := 0
 	a.OnInconsistentRA = func(o, _ *ndp.RouterAdvertisement) { hooks++; ours = o }
 	host := netip.MustParseAddr("fe80::2")
+	// the advertiser has transmitted before, at a time when the state behind its own RA was different (an address
+	// behind a wildcard has come or gone since, a deprecated prefix has counted down): a report is about the own RA as
+	// of the reception, not as of the last transmission
+	for _, p := range cfg.Plugins {
+		if rp, ok := p.(*v12RawPlugin); ok {
+			now := rp.opts
+			rp.opts = theirs.Options
+			err := a.send(v12Conn{}, netip.IPv6LinkLocalAllNodes(), a.cfg)
+			rp.opts = now
+			if err != nil {
+				return o, nil, err
+			}
+		}
+	}
 	// deliveries before the observed one: the observation is a delta, every reception counts anew
 	for i := 1; i < times; i++ {
 		if _, err := a.handle(theirs, host); err != nil {
